@@ -47,6 +47,50 @@ impl RegistrationToken {
     }
 }
 
+#[cfg(calloop_verif)]
+impl RegistrationToken {
+    pub(crate) fn verif_inner(self) -> TokenInner {
+        self.inner
+    }
+}
+
+#[cfg(calloop_verif)]
+impl<'l, Data> LoopHandle<'l, Data> {
+    /// Read-only snapshot of the loop's bookkeeping (verification hook)
+    pub fn verif_stats(&self) -> crate::verif::VerifStats {
+        let (slots, occupied) = self.inner.sources.borrow().verif_counts();
+        crate::verif::VerifStats {
+            slots,
+            occupied,
+            lifecycle_len: self
+                .inner
+                .sources_with_additional_lifecycle_events
+                .borrow()
+                .values
+                .len(),
+            timer_heap_len: self.inner.poll.borrow().timers.borrow().verif_len(),
+            idles_len: self.inner.idles.borrow().len(),
+            pending_action: {
+                let p = self.inner.pending_action.get();
+                match p {
+                    PostAction::Continue => 0,
+                    PostAction::Reregister => 1,
+                    PostAction::Disable => 2,
+                    PostAction::Remove => 3,
+                }
+            },
+        }
+    }
+}
+
+#[cfg(calloop_verif)]
+impl<'l, Data> EventLoop<'l, Data> {
+    /// Number of cached synthetic events (verification hook)
+    pub fn verif_synthetic_len(&self) -> usize {
+        self.synthetic_events.len()
+    }
+}
+
 pub(crate) struct LoopInner<'l, Data> {
     pub(crate) poll: RefCell<Poll>,
     // The `Option` is used to keep slots of the slab occupied, to prevent id reuse
